@@ -10,6 +10,14 @@ from pathlib import Path
 
 SEEDED = Path("/verif/seeded")
 NEEDS = {
+    "C20-g": "The monitor's peak-file update was factored into a helper that stages the new value with tempfile.mkstemp in the system temp dir (to keep '*.tmp' files out of the outputs) and publishes it with shutil.move instead of a same-directory os.replace. When the output dir is on the same filesystem as the temp dir this is still an atomic rename, but when it is on a different filesystem (e.g. out dir on /dev/shm, scratch or NFS while /tmp is local) shutil.move silently degrades to copy: max-rss.txt is opened with 'wb' (truncated) and filled afterwards, so a reader that falls between that open and the copy gets ValueError from float('').",
+    "C19-g": "The .npy header reader behind _get_fps_file_shape_and_dtype is memoized per path (functools.lru_cache), so _FingerprintFileSequence maps global member indices to files using stale row counts. It only shows when, within one process, a file sequence has been read once (e.g. by an earlier cluster_analysis) and the part files are then rewritten at the same paths with different per-file row counts (re-batched or regenerated fingerprints) and analysed again: the file-sequence provider then fetches the wrong rows (wrong iSIM, silently) or raises IndexError, while the array and single-file providers stay correct.",
+    "C17-g": "BitBirch.set_merge was 'simplified' so that the keep-the-previously-chosen-tolerance rule is applied in one place after the criterion has been resolved (build the named criterion with its default tolerance, then write the explicit-or-previous tolerance onto whatever accept function is now installed); this is equivalent for names and for tolerance-only calls, but it also overwrites the tolerance of a merge-function OBJECT passed as the criterion. It only shows when the estimator's CURRENT criterion carries a tolerance (tolerance-diameter / tolerance-radius / tolerance-legacy / never-merge, not the default diameter or radius) and set_merge is then given a tolerance-bearing merge-function object with a different tolerance: the estimator (and the caller's object) silently take the old tolerance, so set_merge(obj) and BitBirch(merge_criterion=obj) disagree in reported tolerance and in clustering.",
+    "C15-g": "The duplicated input-collection code of `bb run` and `bb multiround` is factored into a helper `_collect_input_files` in bblean/cli.py that sorts the `*.npy` files by `Path.stem` instead of by path/name, so molecules are no longer numbered in sorted-file order (and clusters.pkl/centroids differ from the API fed with sorted(dir.glob('*.npy')), and from what the plotting commands assume). It only shows on a directory input where one file stem is a proper prefix of another and the next character sorts at or below '.', e.g. lib.npy next to lib-extra.npy or lib.b.npy; zero-padded <name>.<idx>.npy sets, single files and unrelated names are unaffected.",
+    "C14-h": "The start-of-run purge of leftovers and the end-of-run cleanup in bblean/multiround.py were folded into a helper that uses glob.iglob(os.path.join(out_dir, pattern)) instead of Path(out_dir).glob(pattern), so glob metacharacters in the output directory's own path are interpreted as a pattern and nothing is matched. It only shows when the output directory path contains '[', ']' (or '*', '?'), e.g. 'results[v2]': then an interrupted run followed by a re-run with fewer files consumes the stale round files (extra molecules in clusters.pkl, or an UnpicklingError on a half-written idxs file), and even a successful run with cleanup leaves all round-* files behind; ordinary directory names behave exactly as before.",
+    "C13-g": "The C++ unpack kernels (_nochecks_unpack_fingerprints_1d/_2d in bblean/csrc/similarity.cpp, also used by jt_isim_packed_u8 and jt_most_dissimilar_packed) were refactored onto a shared _unpack_row helper that copies whole bytes first and then handles the remainder once; the truncated tail is read from the row's LAST byte (in[n_bytes-1]) instead of the byte that contains feature n_features (in[n_features/8]). Identical to np.unpackbits(count=n_features) whenever n_features is omitted, a multiple of 8, >= 8*n_bytes, or within the last byte; it differs only when an explicit n_features is not a multiple of 8 AND is more than one byte short of the stored row width (e.g. 167-bit or 881-bit fingerprints kept in rows zero-padded to a multiple of 64 bytes for the aligned fast path), where the trailing n_features%8 bits of every unpacked row, and hence the iSIM of the packed array, differ from the Python fallback. Demonstration: demo.py compiles the real, unmodified bblean/csrc/similarity.cpp out of tree with g++ against a minimal pybind11 stand-in header (seed_out/demo_support/pybind11/*.h) plus a C-ABI harness (seed_out/demo_support/harness.cpp), loads it with ctypes, and compares all six kernels bit-for-bit with bblean._py_similarity / bblean.fingerprints.unpack_fingerprints on a grid of widths, alignments and feature counts (no re-implementation of the loop).",
+    "C11-h": "jt_isim_radius_compl_from_sum now accumulates the centroid in place on `ls.astype(np.uint64, copy=False)`, which aliases the caller's array exactly when the count vector is already uint64 (e.g. `fps.sum(0)`); the first call still returns the right value, but the caller's count vector is silently incremented by the centroid. It shows only in a multi-step sequence: call a radius / radius-complement from-sum function on a uint64 count vector and then evaluate jt_isim_from_sum / diameter / radius (or the radius again) on the same array - those no longer equal the exact definition nor the from-fingerprints variants. Narrower dtypes (all BitBirch tree buffers below 2^32 samples) and the from-fingerprints wrappers (temporary sums) are unaffected.",
+    "C10-g": "jt_isim_radius_compl_from_sum (bblean/similarity.py) no longer upcasts to uint64 before adding the majority-vote centroid to the column sums ('jt_isim_from_sum casts anyway'), so the addition happens in the dtype of the sums that were passed in and wraps to 0 for any column already at that dtype's maximum. It only shows for the radius-based criteria when the sums arrive in the narrow dtype the tree stores them in (smallest uint holding n) AND the cluster size is exactly the dtype's maximum (255 for uint8, 65535 for uint16) AND some bit is set in every member: e.g. tolerance-radius with an old cluster of exactly 255 members sharing common bits gets a garbage-low old statistic and accepts a merge whose merged statistic is far below old - slack; sizes 254/256 or uint64 sums (what test_merges passes) behave correctly.",
     "C01-a": "num_fitted_fps is advanced by the per-call row index instead of by one per row: needs a second (or later) "
              "fit call, or a fit that fails part-way, after which labels collide / the partition breaks",
     "C02-a": "integer majority threshold (n+1)//2 compared in the native dtype of the linear sum: needs a cluster whose "
